@@ -9,7 +9,7 @@ integer / range index from below -len to above len, non-integral, infinite and i
 failing statements of every form followed by probes of everything they might have touched (feat_residue)."""
 from .. import common
 from ..common import Check
-from ..gen import feat_index, feat_residue, progs
+from ..gen import feat_index, feat_order, feat_residue, progs
 from . import modelcheck
 
 
@@ -50,6 +50,10 @@ def run(tier):
     r4 = ck.rng.fork("residue")
     for i in range(400 if quick else 10000):
         plist.append({"name": "residue/%d" % i, "steps": [("snip", feat_residue.program(r4.fork(str(i))))], "mods": []})
+
+    r5 = ck.rng.fork("order")
+    for i in range(400 if quick else 10000):
+        plist.append({"name": "order/%d" % i, "steps": [("snip", feat_order.program(r5.fork(str(i))))], "mods": []})
 
     def seen(p, m, res):
         v = m["view"][0]
